@@ -1091,8 +1091,18 @@ impl TypedReteUlEngine {
         let mut agenda: Vec<usize>;
         let mut changed = true;
         let mut fired_flags = std::collections::HashSet::new();
+        let max_iterations = 100; // Prevent infinite loops (rules without no-loop that stay true)
+        let mut iterations = 0;
 
         while changed {
+            iterations += 1;
+            if iterations > max_iterations {
+                eprintln!(
+                    "Warning: typed RETE engine reached max iterations ({})",
+                    max_iterations
+                );
+                break;
+            }
             changed = false;
 
             // Build agenda: rules that match and not fired
